@@ -47,7 +47,7 @@ func c15_derLen(n int) []byte {
 	}
 }
 
-func derTLV(tag byte, content []byte) []byte {
+func c15_derTLV(tag byte, content []byte) []byte {
 	out := append([]byte{tag}, c15_derLen(len(content))...)
 	return append(out, content...)
 }
@@ -70,11 +70,11 @@ func dnDER(rdns [][]c15ATV) []byte {
 	for _, r := range rdns {
 		var set []byte
 		for _, a := range r {
-			set = append(set, derTLV(0x30, append(derOID(a.oid), a.val...))...)
+			set = append(set, c15_derTLV(0x30, append(derOID(a.oid), a.val...))...)
 		}
-		seq = append(seq, derTLV(0x31, set)...)
+		seq = append(seq, c15_derTLV(0x31, set)...)
 	}
-	return derTLV(0x30, seq)
+	return c15_derTLV(0x30, seq)
 }
 
 const (
@@ -114,9 +114,9 @@ func strTLV(tag int, s string) []byte {
 		for _, u := range utf16.Encode([]rune(s)) {
 			b = append(b, byte(u>>8), byte(u))
 		}
-		return derTLV(byte(tag), b)
+		return c15_derTLV(byte(tag), b)
 	}
-	return derTLV(byte(tag), []byte(s))
+	return c15_derTLV(byte(tag), []byte(s))
 }
 
 // fitTag picks a string type that can carry s (Printable/IA5/UTF8String, the three of the property).
@@ -346,18 +346,18 @@ func c15RandOID(r *Rng, table [][2]string, small bool) []int {
 func c15NonString(r *Rng) []byte {
 	switch r.Intn(13) {
 	case 10:
-		return derTLV(23, []byte("200101000000Z")) // UTCTime
+		return c15_derTLV(23, []byte("200101000000Z")) // UTCTime
 	case 11:
-		return derTLV(24, []byte("20200101000000Z")) // GeneralizedTime
+		return c15_derTLV(24, []byte("20200101000000Z")) // GeneralizedTime
 	case 12:
-		return derTLV(24, []byte("20600101000000Z"))
+		return c15_derTLV(24, []byte("20600101000000Z"))
 	case 0:
 		return []byte{2, 1, byte(r.Intn(256))}
 	case 1:
 		b, _ := asn1.Marshal(int64(r.U64()))
 		return b
 	case 2:
-		return derTLV(4, r.Bytes(r.Intn(6)))
+		return c15_derTLV(4, r.Bytes(r.Intn(6)))
 	case 3:
 		return []byte{5, 0}
 	case 4:
@@ -365,13 +365,13 @@ func c15NonString(r *Rng) []byte {
 	case 5:
 		return derOID([]int{1, 2, 840, r.Intn(100000)})
 	case 6:
-		return derTLV(0x30, []byte{2, 1, 5})
+		return c15_derTLV(0x30, []byte{2, 1, 5})
 	case 7:
-		return derTLV(0x80|byte(r.Intn(31)), r.Bytes(r.Intn(5)))
+		return c15_derTLV(0x80|byte(r.Intn(31)), r.Bytes(r.Intn(5)))
 	case 8:
-		return derTLV(3, append([]byte{0}, r.Bytes(r.Intn(4))...))
+		return c15_derTLV(3, append([]byte{0}, r.Bytes(r.Intn(4))...))
 	default:
-		return derTLV(28, []byte{0, 0, 0, 'a'}) // UniversalString
+		return c15_derTLV(28, []byte{0, 0, 0, 'a'}) // UniversalString
 	}
 }
 
